@@ -11,5 +11,5 @@ CONSTANTS
   EmitOps <- NoEmit
 CONSTRAINT SizeBound
 VIEW absvars
-INVARIANTS TypeOK PackRoundTrip UnusedZero Laws
-PROPERTIES ObserversPure ViewSizeFixed FailedChangesNothing MoveLaw SwapLaw SelfLaw
+INVARIANTS TypeOK PackRoundTrip UnusedZero Laws AlgoLaws
+PROPERTIES ObserversPure ViewSizeFixed FailedChangesNothing MoveLaw SwapLaw SelfLaw AlgoSizeLaw
